@@ -439,6 +439,94 @@ def explore_marker(h, sub8):
     return reached
 
 
+def rule_retry(ctx, bs):
+    """an arm of the container state machine that asks for more data leaves nothing behind"""
+    rid = "R-RETRY-IDEMPOTENT"
+    ctx.rule(rid, "ParseEvents::emit_single: when an arm of the `match state` returns Ok(None) (need more data) without having stored a new "
+                  "DetectState, the same arm runs again on the next feed with the same bytes re-offered; on every such path - from the "
+                  "switch on the state to the Ok(None) return, avoiding stores of a new state - there is no store to the jxlp index state, "
+                  "to a field of the current state (bytes_left ...), or to the input cursor. Otherwise the effect is applied once per feed "
+                  "call and depends on how the stream was cut")
+    f = bs.fn(EMIT)
+    if f is None:
+        ctx.anchor_missing(rid, EMIT)
+        return
+    ctx.seen(f)
+    defs = Defs(f)
+    # the switch on the discriminant of *state
+    heads = []
+    for b in range(len(f.blocks)):
+        if f.is_cleanup(b):
+            continue
+        sub = switch_subject(f, defs, b)
+        if sub and sub[0] == "discr":
+            ap = access_path(f, defs, sub[1][0])
+            ty = f.local_ty(sub[1][0])
+            if DETECT in ty or (ap and ap[1] and ap[1][-1] == "state"):
+                heads.append(b)
+    # Ok(None) returns
+    rets = set()
+    for b, blk in enumerate(f.blocks):
+        if blk[2]:
+            continue
+        none_locals = {st[1][0] for st in blk[0] if st[0] == "=" and len(st[1]) == 1 and st[2][0] == "agg" and st[2][1][0] == "adt"
+                       and st[2][1][1] == "core::option::Option" and st[2][1][2] == "None"}
+        for st in blk[0]:
+            if st[0] == "=" and st[1] == [0] and st[2][0] == "agg" and st[2][1][0] == "adt" and st[2][1][1] == "core::result::Result" \
+                    and st[2][1][2] == "Ok" and any(op_local(o) in none_locals for o in st[2][2]):
+                rets.add(b)
+    if not heads or not rets:
+        ctx.anchor_missing(rid, "the `match state` switch / Ok(None) returns of emit_single")
+        return
+    state_stores = set()
+    mutations = {}
+    for b, blk in enumerate(f.blocks):
+        if blk[2]:
+            continue
+        for st in blk[0]:
+            if st[0] != "=" or len(st[1]) < 2:
+                continue
+            p = st[1]
+            ap = access_path(f, defs, p[0])
+            names = tuple(ap[1]) if ap else ()
+            fields = [e[2] for e in p[1:] if isinstance(e, list) and e[0] == "."]
+            if p[1] == "*" and len(p) == 2 and (names[-1:] == ("state",)):
+                state_stores.add(b)
+            elif p[1] == "*" and (names[-1:] == ("jxlp_index_state",) or "jxlp_index_state" in names):
+                mutations[b] = "the jxlp index state"
+            elif p[1] == "*" and ("state" in names) and (fields or len(names) > names.index("state") + 1):
+                mutations[b] = "a field of the current state (%s)" % (".".join(str(x) for x in (list(names[names.index("state") + 1:]) + fields)) or "payload")
+            elif p[1] == "*" and len(p) == 2 and names[-1:] == ("remaining_input",):
+                mutations[b] = "the input cursor"
+    n = 0
+    bad = []
+    for m, what in sorted(mutations.items()):
+        if m in state_stores:
+            continue
+        n += 1
+        for h in heads:
+            p1 = find_path_edges(f, [h], lambda x: x == m, avoid_block=lambda x: x in state_stores and x != m)
+            if p1 is None:
+                continue
+            p2 = find_path_edges(f, [m], lambda x: x in rets, avoid_block=lambda x: (x in state_stores or x in heads) and x != m)
+            if p2 is not None:
+                bad.append((m, what, p2))
+                break
+    ctx.counts[rid + ".mutations"] = n
+    if bad:
+        seen_w = set()
+        for m, what, path in bad:
+            if what in seen_w:
+                continue
+            seen_w.add(what)
+            ctx.bad(rid, "mutation-before-need-more-data:%s" % what.split(" (")[0], "emit_single modifies %s (line %d) and can then return Ok(None) without "
+                    "moving to a new state: the arm is executed again on the next feed and the modification is applied twice"
+                    % (what, pos_line(f.term_pos(m))), fn=f, pos=f.term_pos(m), path=path)
+    else:
+        ctx.ok(rid, "retried-arms-are-pure", "%d state/cursor mutations examined: none can be followed by Ok(None) without a new state" % n, nontrivial=True, fn=f)
+    ctx.floor(rid + ".mutations", 4)
+
+
 def rule_consumed(ctx, bs):
     rid = "R-CONSUMED"
     ctx.rule(rid, "ParseEvents::next adds (initial.len() - remaining.len()) to previous_consumed_bytes on every path after emit_single, "
@@ -675,6 +763,7 @@ def main(pid, tier, repo=None):
     rule_boxsize(ctx, bs)
     rule_boxhdr(ctx, bs)
     rule_consumed(ctx, bs)
+    rule_retry(ctx, bs)
     rule_auxbox(ctx)
     specconst.run(ctx, pid)
     ctx.not_decided("byte-exact reassembly and payload delivery (value-level); Brotli decompression")
